@@ -402,6 +402,35 @@ def gen_c02_decls(rng, tier):
                        ([RXL, MN], [("regex", ("s", "a1")), ("len_char_min", ("s", "a"))]),
                        ([MN, RXL, NE], [("regex", ("s", "ab ")), ("len_char_min", ("s", "a")), ("not_empty", ("s", ""))])):
         presence("String", items, wit)
+    # multi-byte witnesses: the limits count characters, not bytes
+    ZH, EM = "\u0436", "\U0001F600"
+    for items, wit in (([MN, MX], [("len_char_min", ("s", ZH)), ("len_char_min", ("s", EM)), ("len_char_max", ("s", ZH * 5)), ("len_char_max", ("s", "a" + EM * 4))]),
+                       ([MX, MN], [("len_char_min", ("s", ZH)), ("len_char_max", ("s", EM * 5))]),
+                       ([NE, MX, MN], [("len_char_min", ("s", EM)), ("len_char_max", ("s", ZH * 5))])):
+        presence("String", items, wit)
+    # ---- sanitizers run in the written order: expected value computed here (ASCII inputs only), not by the model
+    PY_SAN = {"trim": lambda s_: s_.strip(" "), "lowercase": lambda s_: s_.lower(), "uppercase": lambda s_: s_.upper(),
+              "W0": lambda s_: s_ + "!", "W1": lambda s_: s_.upper(), "W2": lambda s_: s_[:3]}
+    chains = [["W0", "trim"], ["trim", "W0"], ["W2", "trim"], ["trim", "W2"], ["W2", "trim", "lowercase"], ["lowercase", "W2", "trim"],
+              ["W0", "trim", "uppercase"], ["uppercase", "W0", "trim"], ["trim", "W2", "lowercase"], ["W2", "lowercase"], ["lowercase", "W0"],
+              ["W0", "W2"], ["W2", "W0"], ["W0", "lowercase", "trim"], ["trim", "lowercase", "W0"]]
+    if tier == "quick":
+        chains = chains[::1]
+    for ci, chain in enumerate(chains):
+        if len([c_ for c_ in chain if c_.startswith("W")]) > 1 and True:
+            pass
+        sitems = [[tid("with"), EQ, tfn(int(c_[1]), FORMS[ci % 5], "s")] if c_.startswith("W") else [tid(c_)] for c_ in chain]
+        if sum(1 for c_ in chain if c_.startswith("W")) > 1:
+            continue            # two `with` sanitizers are refused (duplicate kind)
+        d = b.add("String", [block("sanitize", sitems, trailing=bool(ci % 2)), D(["Debug"])], "sanorder")
+        d.tags.add("sanorder")
+        ins = [" Ab ", "AB CD", "  x", "a_b ", " ", "", "abc  ", "  ABCD  ", "A b", " a b c d "]
+        d.expected = []
+        for s_ in ins:
+            v = s_
+            for c_ in chain:
+                v = PY_SAN[c_](v)
+            d.expected.append((s_, v))
     # ---- layout families
     fam_id = 0
 
